@@ -136,6 +136,9 @@ Definition rank_of (m : machine) (o : output) : Z :=
   | OState t => match find_state t (m_states m) with Some st => s_rank st | None => 0 end
   end.
 
+Definition group_rank (m : machine) (outs : list output) (j : nat) : Z :=
+  match nth_error outs j with Some o => rank_of m o | None => 0 end.
+
 (* sorted(groups, key=str): a stable insertion sort on the harness-supplied ranks *)
 Fixpoint insert_group (rk : nat -> Z) (g : nat * list label) (l : list (nat * list label)) : list (nat * list label) :=
   match l with
@@ -148,7 +151,7 @@ Fixpoint sort_groups (rk : nat -> Z) (l : list (nat * list label)) : list (nat *
 Fixpoint znodup (l : list Z) : bool := match l with [] => true | x :: r => negb (zmem x r) && znodup r end.
 
 (* a loop with early exit: the first step that does not end with Done ends the whole loop (an exception propagates) *)
-Fixpoint run_seq {G : Type} (f : G -> column -> column * outcome) (gs : list G) (col : column) : column * outcome :=
+Fixpoint run_seq {G W : Type} (f : G -> W -> W * outcome) (gs : list G) (col : W) : W * outcome :=
   match gs with
   | [] => (col, Done)
   | g :: r => match f g col with
@@ -192,8 +195,7 @@ Fixpoint next_state (fuel : nat) (m : machine) (b : Z) (draw : sid -> label -> Z
                if existsb (fun d => (length outs <=? snd d)%nat) ds then (col, Fail EOther)   (* IndexError in np.array(choices)[..] *)
                else if negb (znodup (map t_target (s_trans s))) then (col, Fail EOther)       (* Categorical categories must be unique *)
                else run_seq (do_group (next_state f m b draw) m outs)
-                               (sort_groups (fun j => match nth_error outs j with Some o => rank_of m o | None => 0 end)
-                                        (groups (length outs) ds)) col
+                            (sort_groups (group_rank m outs) (groups (length outs) ds)) col
            end
   end.
 
@@ -206,6 +208,120 @@ Definition transition (fuel : nat) (m : machine) (b : Z) (draw : sid -> label ->
                       (col : column) (idx : list label) : column * outcome :=
   run_seq (fun s c => let aff := affected_of tracked col idx s in
                       if is_nil aff then (c, Done) else next_state fuel m b draw s aff c) (m_states m) col.
+
+(* ================================================================================================================
+   hooks.  State.transition_effect = the one-column update FOLLOWED by State.transition_side_effect(index, time)
+   (state_machine.py 235-250); Machine.cleanup calls State.cleanup_effect(index, time) for the simulants that ARE in a
+   state (507-510).  The same loops as above, threading a log of hook calls next to the column: an entry records the
+   state whose hook ran, the group it was given (request order, repeats kept) and the state column of that group AT THE
+   MOMENT the hook ran.  (The real loop also invokes the hook with an EMPTY index for every empty group; such calls
+   touch nobody and are left out of the log on both sides.)
+   ================================================================================================================ *)
+Record entry := { e_state : sid; e_members : list label; e_seen : list sid }.
+Definition world := (column * list entry)%type.
+
+Definition do_group_w (rec : state -> list label -> world -> world * outcome) (m : machine) (outs : list output)
+                      (g : nat * list label) (w : world) : world * outcome :=
+  let '(j, aff) := g in
+  if is_nil aff then (w, Done) else
+  match nth_error outs j with
+  | Some (OState t) =>
+      let col1 := write (fst w) aff t in
+      let w1 := (col1, snd w ++ [{| e_state := t; e_members := aff; e_seen := map col1 aff |}]) in
+      match find_state t (m_states m) with
+      | Some st => if s_transient st then rec st aff w1 else (w1, Done)
+      | None => (w1, Done)
+      end
+  | _ => (w, Done)
+  end.
+
+Fixpoint next_state_w (fuel : nat) (m : machine) (b : Z) (draw : sid -> label -> Z)
+                      (s : state) (idx : list label) (w : world) : world * outcome :=
+  match fuel with
+  | O => (w, OOF)
+  | S f =>
+      if is_nil (s_trans s) || is_nil idx then (w, Done)
+      else match decisions (m_den m) b draw s idx with
+           | Rejected e => (w, Fail e)
+           | OutOfFuel => (w, OOF)
+           | Ok ds =>
+               let outs := outputs s in
+               if existsb (fun d => (length outs <=? snd d)%nat) ds then (w, Fail EOther)
+               else if negb (znodup (map t_target (s_trans s))) then (w, Fail EOther)
+               else run_seq (do_group_w (next_state_w f m b draw) m outs)
+                            (sort_groups (group_rank m outs) (groups (length outs) ds)) w
+           end
+  end.
+
+Definition transition_w (fuel : nat) (m : machine) (b : Z) (draw : sid -> label -> Z) (tracked : label -> bool)
+                        (col : column) (idx : list label) : world * outcome :=
+  run_seq (fun s w => let aff := affected_of tracked col idx s in
+                      if is_nil aff then (w, Done) else next_state_w fuel m b draw s aff w) (m_states m) (col, []).
+
+(* the hook calls of a call that ends normally, as a function of the request alone *)
+Definition group_entries (eff : state -> list label -> list entry) (m : machine) (outs : list output)
+                         (g : nat * list label) : list entry :=
+  let '(j, aff) := g in
+  if is_nil aff then [] else
+  match nth_error outs j with
+  | Some (OState t) =>
+      {| e_state := t; e_members := aff; e_seen := map (fun _ => t) aff |} ::
+      match find_state t (m_states m) with
+      | Some st => if s_transient st then eff st aff else []
+      | None => []
+      end
+  | _ => []
+  end.
+
+Fixpoint effects (fuel : nat) (m : machine) (b : Z) (draw : sid -> label -> Z) (s : state) (idx : list label) : list entry :=
+  match fuel with
+  | O => []
+  | S f =>
+      if is_nil (s_trans s) || is_nil idx then []
+      else match decisions (m_den m) b draw s idx with
+           | Ok ds => let outs := outputs s in
+                      flat_map (group_entries (effects f m b draw) m outs)
+                               (sort_groups (group_rank m outs) (groups (length outs) ds))
+           | _ => []
+           end
+  end.
+
+Definition transition_effects (fuel : nat) (m : machine) (b : Z) (draw : sid -> label -> Z) (tracked : label -> bool)
+                              (col : column) (idx : list label) : list entry :=
+  flat_map (fun s => effects fuel m b draw s (affected_of tracked col idx s)) (m_states m).
+
+(* the states one simulant is written into, in order *)
+Fixpoint trail (fuel : nat) (m : machine) (b : Z) (draw : sid -> label -> Z) (s : state) (i : label) : list sid :=
+  match fuel with
+  | O => []
+  | S f =>
+      if is_nil (s_trans s) then []
+      else match decide (m_den m) b draw s i with
+           | Ok k => match nth_error (outputs s) k with
+                     | Some (OState t) =>
+                         t :: match find_state t (m_states m) with
+                              | Some st => if s_transient st then trail f m b draw st i else []
+                              | None => []
+                              end
+                     | _ => []
+                     end
+           | _ => []
+           end
+  end.
+
+Definition own_trail (fuel : nat) (m : machine) (b : Z) (draw : sid -> label -> Z) (tracked : label -> bool)
+                     (col : column) (idx : list label) (l : label) : list sid :=
+  if zmem l idx && tracked l
+  then match find_state (col l) (m_states m) with Some s => trail fuel m b draw s l | None => [] end
+  else [].
+
+(* the hooks that saw simulant [l], in order *)
+Definition seen_by (l : label) (log : list entry) : list sid :=
+  map e_state (filter (fun e => zmem l (e_members e)) log).
+
+(* Machine.cleanup: every state, in declaration order, is handed the requested tracked simulants that are in it NOW *)
+Definition cleanup_calls (m : machine) (tracked : label -> bool) (col : column) (idx : list label) : list (sid * list label) :=
+  flat_map (fun s => let aff := affected_of tracked col idx s in if is_nil aff then [] else [(s_id s, aff)]) (m_states m).
 
 (* ================================================================================================================
    declarative side: one simulant on its own.  None = not moved (null transition / no transitions)
@@ -267,23 +383,50 @@ Definition mk_state (s : sspec) : state :=
 
 Definition code_of (o : outcome) : Z := match o with Done => 0 | Fail _ => 1 | OOF => 3 end.
 
-(* ---- stream `machine`: Machine.transition on a real context ----
+(* multiset equality (the order in which independent groups / states are walked is not constrained by the property) *)
+Fixpoint count_by {A : Type} (eqb : A -> A -> bool) (x : A) (l : list A) : nat :=
+  match l with [] => O | y :: r => if eqb x y then S (count_by eqb x r) else count_by eqb x r end.
+Definition perm_eqb {A : Type} (eqb : A -> A -> bool) (l1 l2 : list A) : bool :=
+  Nat.eqb (length l1) (length l2) && forallb (fun x => Nat.eqb (count_by eqb x l1) (count_by eqb x l2)) l1.
+
+(* a group as a SET of simulants: whether a hook is handed a repeated label once or twice, and in which order, is not
+   constrained by the property *)
+Fixpoint zinsert (x : Z) (l : list Z) : list Z :=
+  match l with [] => [x] | y :: r => if x <=? y then x :: l else y :: zinsert x r end.
+Fixpoint zsort (l : list Z) : list Z := match l with [] => [] | x :: r => zinsert x (zsort r) end.
+Fixpoint zdedup (l : list Z) : list Z := match l with [] => [] | x :: r => if zmem x r then zdedup r else x :: zdedup r end.
+Definition canon (l : list label) : list label := zsort (zdedup l).
+
+Definition hook_obs := (sid * list label * bool)%type.   (* state, group (sorted set), "the hook saw the whole group in that state" *)
+Definition hook_eqb (a c : hook_obs) : bool :=
+  (fst (fst a) =? fst (fst c)) && zlist_eqb (snd (fst a)) (snd (fst c)) && Bool.eqb (snd a) (snd c).
+Definition call_eqb (a c : sid * list label) : bool := (fst a =? fst c) && zlist_eqb (snd a) (snd c).
+Definition hook_of (e : entry) : hook_obs := (e_state e, canon (e_members e), forallb (Z.eqb (e_state e)) (e_seen e)).
+
+(* ---- stream `machine`: Machine.transition (then Machine.cleanup) on a real context ----
    case = (denominator, rank of "null_transition", states, draw denominator, draws per state id, rows (label, tracked,
-           state before), requested index, fuel, observed code (0 ok, 1 ValueError), rows (label, state after)) *)
+           state before), requested index, fuel, observed code (0 ok, 1 ValueError), rows (label, state after),
+           observed transition_side_effect calls with a non-empty index, observed cleanup_effect calls) *)
 Definition machine_case := (Z * Z * list sspec * Z * list (sid * list (label * Z)) * list (label * bool * sid) *
-                            list label * nat * Z * list (label * sid))%type.
+                            list label * nat * Z * list (label * sid) * list hook_obs * list (sid * list label))%type.
 Definition check_machine (c : machine_case) : bool :=
-  let '(D, nrk, sts, b, dr, rows, idx, fuel, code, after) := c in
+  let '(D, nrk, sts, b, dr, rows, idx, fuel, code, after, hooks, cleanups) := c in
   let m := {| m_den := D; m_null_rank := nrk; m_states := map mk_state sts |} in
   let tracked := btbl (map (fun r => (fst (fst r), snd (fst r))) rows) in
   let col := tbl (map (fun r => (fst (fst r), snd r)) rows) in
-  let '(col', o) := transition fuel m b (dtbl dr) tracked col idx in
+  let '((col', log), o) := transition_w fuel m b (dtbl dr) tracked col idx in
   (code_of o =? code) &&
   Nat.eqb (length after) (length rows) &&
+  (* Machine.cleanup on the table as it is after the call *)
+  perm_eqb call_eqb (map (fun c => (fst c, canon (snd c))) (cleanup_calls m tracked (tbl after) idx)) cleanups &&
   if code =? 0
   then forallb (fun ls => col' (fst ls) =? snd ls) after &&
        (* the closed form of C17_closed_form predicts the same column *)
-       forallb (fun ls => own_destination fuel m b (dtbl dr) tracked col idx (fst ls) =? snd ls) after
+       forallb (fun ls => own_destination fuel m b (dtbl dr) tracked col idx (fst ls) =? snd ls) after &&
+       (* every side-effect hook call: which state, which group, and what the group's state column was at that moment *)
+       perm_eqb hook_eqb (map hook_of log) hooks &&
+       (* per simulant the hooks come in the order of its own trail (C17_hooks_exactly_once) *)
+       forallb (fun ls => zlist_eqb (seen_by (fst ls) log) (own_trail fuel m b (dtbl dr) tracked col idx (fst ls))) after
   else (* a refused call: WHICH groups were already written when the exception came depends on the order in which
           states and groups are walked, which the property does not constrain - only the simulants outside the tracked
           request are compared *)
